@@ -1047,6 +1047,14 @@ class VmxLockedSuite(Suite):
             cfg = gen_vmx(rng, tier, False)["text"]
             if cfg and not cfg.endswith("\n"):
                 cfg += "\n"
+            # the clear-text part may set a key that the encrypted part sets too (a template's disk, another casing of the
+            # key): the encrypted part is merged over it, as a later line of one file would be
+            lines = [ln for ln in cfg.split("\n") if " = " in ln and not ln.lstrip().startswith("#")]
+            if lines and rng.chance(0.6):
+                k = rng.pick(lines).split(" = ")[0].strip()
+                k = rng.pick([k, k.upper(), k.lower()])
+                if all(k.lower() != vk.lower() for vk, _ in b["visible"]):
+                    b["visible"].append((k, rng.pick(["template.vmdk", "scsi-hardDisk", "cdrom-image", "TRUE", "FALSE"])))
             good = b["pairs"][b["good"]]
             iv = bytes(rng.randrange(256) for _ in range(16))
             b["cfg"] = cfg.encode().hex()
